@@ -160,6 +160,22 @@ func genC15(c *Ctx, r *rng.R, i int) {
 	case 1:
 		v = gv.Weaken(r, v, 40, true)
 		kind = "weakened"
+	case 2:
+		// an infinity of either sign somewhere inside: JSON has no spelling for it
+		inf := []cty.Value{cty.PositiveInfinity, cty.NegativeInfinity}[r.Intn(2)]
+		done := false
+		if w, err := cty.Transform(v, func(p cty.Path, x cty.Value) (cty.Value, error) {
+			if !done && x.Type() == cty.Number && x.IsKnown() && !x.IsNull() && r.Bool() {
+				done = true
+				return inf, nil
+			}
+			return x, nil
+		}); err == nil && done {
+			v = w
+		} else {
+			v = cty.TupleVal([]cty.Value{v, inf})
+		}
+		kind = "infinity"
 	}
 	if !stringsOKSafe(v) || hasHugeNumber(v) {
 		c.Count("skipped_domain")
